@@ -132,7 +132,7 @@ static Violation mkviol(const MCase& c, const Target& tg, int lane, const std::s
 {
     Violation v;
     v.kind = "move";
-    v.prop = "C05";
+    v.prop = g_ctx() && !g_ctx()->opt.prop.empty() ? g_ctx()->opt.prop : std::string("C05"); // C19 runs the compile-time-count operations of this driver
     v.op = c.op;
     v.type = kTypeNames[c.type];
     v.target = tg.name;
